@@ -217,7 +217,49 @@ def check_method(ctx, F, ty, meth, fn, npath, lpath, lterm_pred, tag):
     ctx.ob("C10.R1.counts-every-item", "%s::%s%s" % (ty, meth, tag), where, not problems, "per-path-effects", detail + ("; PROBLEMS: " + "; ".join(problems) if problems else ""))
 
 
+def check_predecessor_accepts_large_arguments(ctx, F, tag, rule="C10.R14.predecessor-never-refuses-a-large-argument"):
+    """predecessor(value) starts at the largest set bit at or below value: an argument at or past the end is as good as the last
+    position, never a reason for the exhausted iterator.  In every `predecessor` the empty iterator is returned only behind
+    conditions that do not bound the argument from above (the vector is empty, there is no set bit at or below it): an exit
+    behind `value > ..` / `value >= ..` on the bare argument refuses a valid starting point."""
+    from guards import facts_at, strip_casts
+    for nm in sorted(F.bodies):
+        if not nm.endswith("PredSucc<'a>>::predecessor"):
+            continue
+        b = F.body(nm)
+        vp = [i for i in range(b.nargs) if b.local_name(i + 1) == "value"]
+        if not vp:
+            continue
+        P = ("param", vp[0])
+        bad = []
+        n = 0
+        for bi, t in b.calls():
+            if "empty" not in callee_name(t).split("::")[-1] or callee_name(t).split("::")[-1] == "is_empty":
+                continue
+            n += 1
+            fs = list(facts_at(b, bi))
+            # ... also when the exit is shared by several tests (`is_empty() || value > len`): the fact on an edge that leads
+            # straight into the exit block
+            from guards import edge_facts
+            for u, v, f in edge_facts(b):
+                w, hops = v, 0
+                while w != bi and hops < 4 and len(b.succ(w)) == 1 and not b.blocks[w]["stmts"] and b.blocks[w]["term"]["t"] == "goto":
+                    w, hops = b.succ(w)[0], hops + 1
+                if w == bi:
+                    fs.append(f)
+            for f in fs:
+                if f[0] != "cmp":
+                    continue
+                if (f[1] in ("Gt", "Ge") and strip_casts(f[2])[:2] == P) or (f[1] in ("Lt", "Le") and strip_casts(f[3])[:2] == P):
+                    bad.append("%s at %s" % (tstr(("bin", f[1], f[2], f[3]))[:60], loc(t["sp"])))
+        ctx.ob(rule, nm + tag, loc(b.raw["span"]), (not bad) if n else None, "guard-dominance",
+               "%d exits with the exhausted iterator; behind an upper bound on the argument: %s" % (n, bad), positive=bool(bad))
+
+
 def check_config(ctx, F, tag, cfg):
+    from core import Relabel
+    if not isinstance(ctx, Relabel):
+        check_predecessor_accepts_large_arguments(ctx, F, tag)
     # (borrowed, A3) "iterators positioned by select_iter, predecessor or successor": the positioning calls take any argument, so
     # their own arithmetic on it is bounded (C09.R1 restricted to the positioning entry points and the iterators' nth / nth_back)
     from core import Relabel
